@@ -65,7 +65,7 @@ def vector_key(rec, clauses):
 
 
 def monitor(pid, obs_path, nrecords):
-    r = vlib.tlc_trace("AddrSortObs", "AddrSortObs.cfg", pid, obs_path, timeout=2400, xmx="8g")
+    r = vlib.tlc_trace("AddrSortObs", "AddrSortObs.cfg", pid, obs_path, timeout=2400, xmx="12g")
     viols, consumed = _viol_lines(r.out)
     if consumed != nrecords:
         vlib.log(r.out[-3000:])
@@ -131,6 +131,11 @@ def run(pid, tier, seed, t0):
     never = [a for a in ["Compute"] if cov.get(a, (0, 0))[1] == 0]
     n_init = cov.get("Init", (0, 0))[0]
 
+    # 1b. standing demonstration that the model invariants can fail: the AS-BUILT variant (sorting only when
+    #     happy_eyeballs_timeout is Some) is refuted by TLC. Informational, never a verdict.
+    ab = vlib.tlc("MC_AddrSort", "AddrSort_asbuilt.cfg", pid, workers=4, timeout=600)
+    asbuilt = {"cfg": "AddrSort_asbuilt.cfg", "tlc_refutes": ab.violated, "expected": "C16Inv"}
+
     # 2. every vector through the real transport ----------------------------------------------------------------------------
     summ = json.loads(vlib.run_harness("addrsort", ["plan", "--vec", vec, "--out", od, "--all"], timeout=1800))
     obs = os.path.join(od, "obs.ndjson")
@@ -164,6 +169,7 @@ def run(pid, tier, seed, t0):
         "samples": summ["samples"],
         "model": {"module": "MC_AddrSort", "cfg": T["cfg"], "variant": "intended (SortAlways = TRUE); AddrSort_asbuilt.cfg is the as-built regression variant",
                   "invariants": list(MODEL_INVS), "initial_states": n_init, "distinct_lists": summ["distinct_lists"], "tlc_wall_s": round(m.wall, 1)},
+        "asbuilt_variant": asbuilt,
         "tlc_coverage": {a: list(cov.get(a, (0, 0))) for a in ["Init", "Compute"]},
         "actions_never_taken": never,
         "conformant": summ["conform"],
